@@ -10,7 +10,8 @@ R5.4 running counter: starts at 1 outside both loops, stored into the atom-numbe
 R5.5 title and box forwarded before the first write (the header is emitted by the first write)
 R5.6 residue numbers (C04/R4.5) and frames for small references (C02/R2.3)
 R5.5 also: box line written completely (C13/R13.4); title stored, written and read unchanged (C13/R13.6)
-R11.1/R11.3 (shared with C11): the system that is iterated lists every instance, in file order
+R11.1/R11.3/R11.8 (shared with C11): the system that is iterated lists every instance, in file order; overlapping candidates are
+     resolved greedily, not by a mask over the gaps between neighbouring candidates
 R5.8 no table kept between calls by extrapolate_system / complete_correspondence unless keyed by everything its entries are computed from
 """
 from __future__ import annotations
@@ -160,6 +161,7 @@ def run(ctx: Ctx):
     from . import c11
     ctx.attempt("R11.1", lambda: c11.r11_1_2(ctx))
     ctx.attempt("R11.3", lambda: c11.r11_3(ctx))
+    ctx.attempt("R11.8", lambda: c11.r11_8(ctx))
 
 
 
